@@ -854,7 +854,11 @@ class C15(Prop):
         # frontend-generated routines
         for s in SOURCES:
             for which in ('ir', 'body', 'spec', 'bodytuple'):
-                yield from emit(mk_cases(rng, [A('src'), s, A(which)], 'src', 6 if tier != 'quick' else 2))
+                try:
+                    cs = mk_cases(rng, [A('src'), s, A(which)], 'src', 6 if tier != 'quick' else 2)
+                except Exception:  # pylint: disable=broad-except
+                    break       # the frontend itself fails on this routine (it uses the finders): programmatic trees remain
+                yield from emit(cs)
         # bare expressions through ExpressionRetriever
         for _ in range(ntrees * 2):
             r = g_expr(rng, rng.choice([1, 2, 3]))
